@@ -83,10 +83,13 @@ pub fn gen_cand(rng: &mut Rng, w: &World) -> Cand {
             _ => (cd::sload(U256::from(sim::SLOT_CHILD)), "sload-child"),
         }
     };
-    let (to, data, label): (Option<Address>, Vec<u8>, String) = match rng.below(if w.shapes.is_some() { 19 } else { 16 }) {
-        16 => (w.shapes.map(|s| s.0), U256::from(rng.range(1, 9)).to_be_bytes::<32>().to_vec(), "refund-set".into()),
-        17 => (w.shapes.map(|s| s.0), vec![0u8; 32], "refund-clear".into()),
-        18 => (w.shapes.map(|s| s.1), vec![], "forward-burn".into()),
+    let (to, data, label): (Option<Address>, Vec<u8>, String) = match rng.below(if w.shapes.is_some() { 20 } else { 17 }) {
+        // a creation whose runtime code is a block-environment word the property does not exclude:
+        // GASLIMIT (0x45), NUMBER (0x43), COINBASE (0x41), CHAINID (0x46), BASEFEE (0x48)
+        16 => (None, vec![*rng.pick(&[0x45u8, 0x43, 0x41, 0x46, 0x48]), 0x5f, 0x52, 0x60, 0x20, 0x5f, 0xf3], "create-env-word".into()),
+        17 => (w.shapes.map(|s| s.0), U256::from(rng.range(1, 9)).to_be_bytes::<32>().to_vec(), "refund-set".into()),
+        18 => (w.shapes.map(|s| s.0), vec![0u8; 32], "refund-clear".into()),
+        19 => (w.shapes.map(|s| s.1), vec![], "forward-burn".into()),
         0..=5 => { let (d, l) = inner(rng); (Some(tool), d, l.to_string()) }
         6 | 7 => { let (d, l) = inner(rng); (Some(tool), cd::call(other, &d), format!("nested-{}", l)) }
         8 => (Some(tool), cd::spin(), "spin".into()),
